@@ -166,10 +166,26 @@ def run(job, ctx):
             if r:
                 ctx.extra.setdefault('wrappers_dropped', []).append(wr)
         dropped = set(ctx.extra.get('wrappers_dropped', []))
+        # stray component words of multi-word alternatives as filler ('do not do that, it is not ok'): neutral by
+        # themselves, but they share a token with a listed phrase
+        stray = []
+        listed = {re.sub(r'\s+', ' ', w) for v in pol.values() for w in v[0]}
+        for v in pol.values():
+            for w in v[0]:
+                for part in re.split(r'\s+', w):
+                    if part and part not in listed and part not in stray:
+                        stray.append(part)
+        stray_wraps = []
+        for part in stray:
+            for wr in ('do %s do that , it is {}' % part, '%s now , %s later , %s ever : {}' % (part, part, part), '{} , but %s like that at all really' % part,
+                       'that is %s what I asked for , so {}' % part):
+                if not m.parse(wr.format('')):
+                    stray_wraps.append(wr)
+        ctx.count('stray_component_wrappers', len(stray_wraps))
         for val, (words, emo) in pol.items():
             for w in words:
                 for v in casings(w):
-                    for wr in WRAPS + TRAPS:
+                    for wr in WRAPS + TRAPS + stray_wraps:
                         if wr in dropped:
                             continue
                         q = wr.format(v)
